@@ -36,6 +36,8 @@ PUNCH = {
     "h0": ([], ['10 PUNCH 4.5, "t"']),                                  # no headings at all
     "hlong": (["L" + "o" * 116 + "g", "b"], ['10 PUNCH "' + "x" * 131 + 'y", 2.5']),     # heading of 118 and text cell of 132 characters
     "h2cond": (["a", "b"], ['10 PUNCH 1.25', '20 IF STEP_NO > 1 THEN PUNCH STEP_NO']),   # PUNCH in only some rows
+    "h2skip": (["a", "b"], ['10 IF STEP_NO > 1 THEN PUNCH 1.25, STEP_NO']),              # no value at all in the first rows
+    "h2never": (["a", "b"], ['10 IF STEP_NO > 99 THEN PUNCH 1.25']),                     # headings, but no value in any row
 }
 ROWS = ["init", "react3", "late", "inverse", "advect", "transport", "kinetics"]
 NEWROWS = ("advect", "transport", "kinetics")     # rows punched by ADVECTION / TRANSPORT / KINETICS (their own identifier columns)
@@ -66,7 +68,7 @@ def make_input(case):
         t += ["USE solution 1", "REACTION 1", " NaCl 1", " 1 mmol in 3 steps", "END"]
     if case["rows"] == "late":
         for n in case["blocks"]:
-            t += ["USER_PUNCH %d" % n, " -headings a b c d late", ' 10 PUNCH 1, 2, 3, 4, "L"']
+            t += ["USER_PUNCH %d" % n, " -headings " + " ".join(LATE_HEADS), ' 10 PUNCH 1, 2, 3, 4, "L"']
         t += ["USE solution 1", "REACTION 1", " NaCl 1", " 1 mmol in 2 steps", "END"]
     if case["rows"] in ("advect", "transport"):
         t += ["SOLUTION 0", " pH 7 charge", " Na 2", " Cl 2", "SOLUTION 2-3", " pH 7 charge", " Na 1", " Cl 1", " Ca 0.5", " C 1"]
@@ -137,10 +139,25 @@ def is_heading_line(cells, heads):
     return True
 
 
-def judge_text(kind, u, text, table, width, problems, inverse, late_unnamed=False):
+def _extra_columns_empty(text, table):
+    """The table columns beyond those the text's heading line names hold no value in any row."""
+    hl = [r for r in split_text(text) if is_heading_line(r, table[0])]
+    k = len(hl[-1]) if hl else 0
+    return k < len(table[0]) and all(c is None for r in table[1:] for c in r[k:])
+
+
+LATE_HEADS = ["a", "b", "c", "d", "late"]
+
+
+def judge_text(kind, u, text, table, width, problems, inverse, late_unnamed=False, off_heads=None, late_def=False):
+    """off_heads: the block carries -user_punch false and a USER_PUNCH with headings is defined at some point."""
     pr = []
     _judge_text(kind, u, text, table, width, pr, inverse)
     for fp, what in pr:
+        if off_heads and fp.endswith("heading-line-vs-table-columns") and table and _extra_columns_empty(text, table):
+            fp = "table-keeps-empty-USER_PUNCH-columns-with--user_punch-false (the text has no such columns)"
+        elif late_def and fp.endswith("heading-line-vs-table-columns") and table and [h for h in table[0] if not (isinstance(h, str) and h.startswith("no_heading"))][-len(LATE_HEADS):] == LATE_HEADS:
+            fp = "text-heading-line-not-renewed when USER_PUNCH is defined or redefined after rows were written (later values appear under no heading)"
         if late_unnamed and fp.split("-", 1)[1] in ("cell-vs-empty", "cell-missing", "cell-not-a-rendering", "more-cells-than-columns"):
             fp = "text-positional-vs-table-named-columns after USER_PUNCH redefinition with unnamed columns"
         if inverse and fp.split("-", 1)[1] in ("cell-vs-empty", "cell-missing", "cell-not-a-rendering", "more-cells-than-columns", "data-row-count"):
@@ -158,6 +175,14 @@ def _judge_text(kind, u, text, table, width, problems, inverse):
         return
     data = [r for r in rows if not is_heading_line(r, heads)]
     nrows = max(0, len(table) - 1)
+    # row 0 of the table and the heading line of the text name the same columns (columns the engine names itself for values
+    # punched beyond the headings, no_heading_k, have no text heading)
+    hl = [r for r in rows if is_heading_line(r, heads)]
+    named = [h for h in heads if not (isinstance(h, str) and h.startswith("no_heading"))]
+    if hl and not inverse and len(hl[-1]) != len(named):
+        problems.append(("%s-heading-line-vs-table-columns" % kind, "user %d: the heading line of the %s names %d columns %r, row 0 of the table %d %r" % (
+            u, kind, len(hl[-1]), [c.strip() for c in hl[-1]], len(named), named)))
+        return
     # a heading line without any heading text (USER_PUNCH without -headings) is an empty line: indistinguishable from a data
     # row in which nothing was punched, so surplus empty lines are taken as heading lines
     while len(data) > nrows and [] in data:
@@ -308,6 +333,8 @@ def _run_case(d, case):
     inverse = case["rows"] == "inverse"
     # USER_PUNCH first punches more values than it has headings (columns no_heading_k), then is redefined with more headings
     late_unnamed = case["rows"] == "late" and case["punch"] in ("h1many", "h0") and "nouserpunch" not in case["opts"]
+    late_def = case["rows"] == "late" and "nouserpunch" not in case["opts"]
+    off_heads = "nouserpunch" in case["opts"] and ((PUNCH[case["punch"]] is not None and bool(PUNCH[case["punch"]][0])) or case["rows"] == "late")
     sig = []
     for u in users:
         e = o["sel"][str(u)]
@@ -339,7 +366,7 @@ def _run_case(d, case):
         text = e["str"]
         if so:
             pr = []
-            judge_text("string", u, text, table, width, pr, inverse, late_unnamed)
+            judge_text("string", u, text, table, width, pr, inverse, late_unnamed, off_heads, late_def)
             if e["lines"] != (text.split("\n")[:-1] if text.endswith("\n") else text.split("\n")) and text != "":
                 pr.append(("lines-vs-string", "user %d: line accessors differ from the string" % u))
             if pr and not eff_so and text == "" and R > 1:
@@ -353,7 +380,7 @@ def _run_case(d, case):
                 if R > 1:
                     problems.append(("file-missing", "user %d: file sink on, table has %d rows, no file %r" % (u, R, e["fname"])))
             else:
-                judge_text("file", u, ftext, table, width, problems, inverse, late_unnamed)
+                judge_text("file", u, ftext, table, width, problems, inverse, late_unnamed, off_heads, late_def)
     # --- unknown user number
     d.call("s0", "c", "SetCurrentSelectedOutputUserNumber", 7)
     for nm, fn, args in (("C", "GetSelectedOutputValue", (0, 0)), ("Value2", "GetSelectedOutputValue2", (0, 0, 32)), ("ValueF", "GetSelectedOutputValueF", (0, 1, 32))):
